@@ -125,8 +125,8 @@ def c18():
         if r.ok != expect_ok:
             raise RuntimeError("LibecConc sanity: %s expected ok=%s" % (nm, expect_ok))
     # monitor: ThreadSanitizer on free-running stress (no scheduler: its synchronisation would hide races)
-    runs = [(4, 2, 150, 0), (4, 0, 200, 1), (2, 2, 300, 3), (8, 0, 60, 1), (4, 4, 120, 4)] if not thorough else \
-           [(n, s, 400, md) for n in (2, 4, 8, 14) for s in (0, 2) for md in (0, 1, 3, 4)]
+    runs = [(4, 2, 150, 0), (4, 0, 200, 1), (2, 2, 300, 3), (8, 0, 60, 1), (4, 4, 120, 4), (6, 1, 40, 8)] if not thorough else \
+           [(n, s, 400, md) for n in (2, 4, 8, 14) for s in (0, 2) for md in (0, 1, 3, 4)] + [(n, 1, 150, 8) for n in (4, 6, 10)]
     total_ops = 0
     nstress = 0
     for i, (n, s, it, md) in enumerate(runs):
@@ -149,6 +149,16 @@ def c18():
         if res["result"] is None or res["rc"] != 0:
             chk.violation({"event": "stress-crash", "args": res["args"], "rc": res["rc"], "reasons": ["C18 crash or wrong result under concurrency"]},
                           "drv_conc(asan) %s ended with rc=%s: %s %s" % (res["args"], res["rc"], res["result"], res["stderr_tail"][-600:]))
+            break
+    # dozens of live instances, destroyed by all threads at once, under ASan (a stale unlink shows as a use-after-free
+    # or as a destroy that no longer finds its own instance)
+    for i, n_ in enumerate((6, 10) if not thorough else (4, 6, 10, 14)):
+        res = run_stress("asan", [n_, 1 - i % 2, 40 if not thorough else 150, _seed_of(chk, 200 + i), 8],
+                         env={"ASAN_OPTIONS": "detect_odr_violation=0:exitcode=97:detect_leaks=0"})
+        chk.cov["evaluations"] += 1
+        if res["result"] is None or res["rc"] != 0:
+            chk.violation({"event": "stress-crash", "args": res["args"], "rc": res["rc"], "reasons": ["C18 crash or wrong result under concurrency"]},
+                          "drv_conc(asan, many live instances) %s ended with rc=%s: %s %s" % (res["args"], res["rc"], res["result"], res["stderr_tail"][-600:]))
             break
     sched_part(chk, thorough)
     chk.parts["stress_runs"] = nstress
